@@ -20,7 +20,7 @@ CHECK = {
                  "quick": {"cases": 80, "shards": 8, "soft_s": 50},
                  "thorough": {"cases": 4000, "shards": 8, "soft_s": 420}},
                 {"name": "TestC12Syscall",
-                 "quick": {"cases": 30, "shards": 8, "soft_s": 50, "shrinktime": "60s"},
+                 "quick": {"cases": 36, "shards": 8, "soft_s": 55, "shrinktime": "60s"},
                  "thorough": {"cases": 1200, "shards": 8, "soft_s": 420, "shrinktime": "120s"}}],
     "floors": {"several_distinct_crash_images": 0.05, "crash_at_request": 0.1, "crash_at_body": 0.05, "registry_republished_before_op": 0.04},
     "rule": "rapid-generated (prior store state built through the API, one operation, crash points as positions within the operation's step / system-call sequence); each evaluation runs the "
